@@ -123,20 +123,9 @@ Proof.
   rewrite in_concat. intros [s [Hs Hx]]. apply in_map_iff in Hs as [a [E Ha]]. subst. eauto.
 Qed.
 
-Section FormatProofs.
+Section FieldOrder.
   Variable V : Type.
-  Variable pformat : V -> ustr.
-  Variable dumps : V -> ustr.
-  Variable to_str : V -> ustr.
-  Variable level_strs : V -> option (list ustr).
-  Variable render_ts : V -> option ustr.
-
   Notation message := (message V).
-  Notation pretty_format := (pretty_format V pformat to_str level_strs render_ts).
-  Notation compact_format := (compact_format V dumps to_str level_strs render_ts).
-  Notation header_parts := (header_parts V to_str level_strs render_ts).
-  Notation main := (main V pformat dumps to_str level_strs render_ts).
-  Notation formatter := (formatter V pformat dumps to_str level_strs render_ts).
 
   (* ---------------------------------------------------------------------- *)
   (* lookup *)
@@ -351,6 +340,23 @@ Section FormatProofs.
         now apply negb_true_iff in H.
   Qed.
 
+End FieldOrder.
+
+Section FormatProofs.
+  Variable V : Type.
+  Variable pformat : V -> ustr.
+  Variable dumps : V -> ustr.
+  Variable to_str : V -> ustr.
+  Variable level_strs : V -> option (list ustr).
+  Variable render_ts : V -> option ustr.
+
+  Notation message := (message V).
+  Notation pretty_format := (pretty_format V pformat to_str level_strs render_ts).
+  Notation compact_format := (compact_format V dumps to_str level_strs render_ts).
+  Notation header_parts := (header_parts V to_str level_strs render_ts).
+  Notation main := (main V pformat dumps to_str level_strs render_ts).
+  Notation formatter := (formatter V pformat dumps to_str level_strs render_ts).
+
   (* ---------------------------------------------------------------------- *)
   (* C20_header *)
 
@@ -421,17 +427,20 @@ Section FormatProofs.
     exists s, compact_format m = Some s /\ no_nl s
       /\ s = to_str uu ++ (slash :: join [slash] ls) ++ [space] ++ ts ++ [space]
              ++ join [space] (map (fun kv => fst kv ++ u "=" ++ dumps (snd kv)) (ordered_fields V m)).
-  Proof.
-    intros H1 H2 H3 H4 H5 Nu Nl Nt Nf.
-    destruct (format_header m uu l t ls ts H1 H2 H3 H4 H5) as [_ Hc].
-    eexists. split; [exact Hc|]. split; [|reflexivity].
+  Proof using dumps to_str level_strs render_ts.
+    clear pformat. intros H1 H2 H3 H4 H5 Nu Nl Nt Nf.
+    exists (to_str uu ++ (slash :: join [slash] ls) ++ [space] ++ ts ++ [space]
+             ++ join [space] (map (fun kv => fst kv ++ u "=" ++ dumps (snd kv)) (ordered_fields V m))).
+    split.
+    { unfold Pretty.compact_format, Pretty.header_parts. rewrite H1, H2, H3, H4, H5. reflexivity. }
+    split; [|reflexivity].
     unfold no_nl in *. rewrite !in_app_iff. cbn [In].
     intros [H|[[H|H]|[[H|[]]|[H|[[H|[]]|H]]]]]; try (vm_compute in H; discriminate); try tauto.
     - apply in_join in H as [[H|[]]|[p [Hp Hx]]]; [vm_compute in H; discriminate|].
       rewrite Forall_forall in Nl. exact (Nl p Hp Hx).
     - apply in_join in H as [[H|[]]|[p [Hp Hx]]]; [vm_compute in H; discriminate|].
       apply in_map_iff in Hp as [[k v] [E Hkv]]. subst p. cbn [fst snd] in Hx.
-      apply ordered_fields_sound in Hkv as [Hin Hreq]. destruct (Nf k v Hin Hreq) as [Nk Nv].
+      apply (ordered_fields_sound V) in Hkv as [Hin Hreq]. destruct (Nf k v Hin Hreq) as [Nk Nv].
       rewrite !in_app_iff in Hx. destruct Hx as [Hx|[Hx|Hx]]; try tauto.
       vm_compute in Hx. destruct Hx as [Hx|[]]. discriminate.
   Qed.
@@ -532,9 +541,7 @@ Section FilterIdentity.
          = map Some js.
   Proof.
     assert (E : filter_run J J (fun j => FValue j) encode (map Some js) = (map (fun j => encode j ++ [nl]) js, true)).
-    { rewrite filter_skip.
-      - f_equal. induction js as [|j js IH]; cbn; [reflexivity|]. now rewrite IH.
-      - apply Forall_forall. intros j _. discriminate. }
+    { induction js as [|j js' IH]; cbn [map filter_run]; [reflexivity|]. rewrite IH. reflexivity. }
     split; [exact E|]. intros decode Hd. rewrite E. cbn [fst]. rewrite map_map.
     apply map_ext. intros j. now rewrite removelast_last.
   Qed.
@@ -582,8 +589,9 @@ Definition ex_stream : list (line ustr) :=
 
 Example ex_stream_guard : Forall (line_guard ustr ex_level ex_ts) ex_stream.
 Proof.
-  repeat constructor; cbn; try exact I; try discriminate.
-  intros _ l t Hl Ht. vm_compute in Hl, Ht. inversion Hl; inversion Ht; subst. split; vm_compute; discriminate.
+  unfold ex_stream. repeat apply Forall_cons; try apply Forall_nil; unfold line_guard; cbn [l_dec]; try exact I.
+  - intros Hreq. vm_compute in Hreq. discriminate.
+  - intros _ lv tv Hl Ht. vm_compute in Hl, Ht. inversion Hl; inversion Ht; subst. split; vm_compute; discriminate.
 Qed.
 
 Example ex_stream_runs :
